@@ -7,7 +7,9 @@
    of a bracketed literal is written with its brackets; [bare] removes them.
 
    Library choices the specification text leaves open, recorded as rows of the table:
-   - a delegated name that is not a valid server name: the whole resolution is refused;
+   - a delegated name that is not a valid server name makes the well-known reply invalid
+     (specification step 3: an invalid response skips to step 4): resolution goes on with SRV
+     and port 8448 for the name asked for;
    - an SRV lookup failing with anything but "not found" for _matrix-fed._tcp: the deprecated
      _matrix._tcp is not consulted and the name falls through to port 8448. *)
 From Verif Require Import Lib.Bytes Net.IpC16 Net.ServerNameC16 Net.Resolve.
@@ -62,11 +64,13 @@ Definition wants_well_known (name : bytes) : Prop :=
 Inductive resolves (wk : bytes -> option bytes) (srv : bytes -> bytes -> srv_outcome)
           (name : bytes) : outcome -> Prop :=
 | R_delegated : forall d o,
-    wants_well_known name -> wk name = Some d ->
+    wants_well_known name -> wk name = Some d -> parse_and_validate d <> None ->
     direct srv d o ->                       (* no further well-known lookup for d *)
     resolves wk srv name o
 | R_not_delegated : forall o,
-    wants_well_known name -> wk name = None -> direct srv name o -> resolves wk srv name o
+    wants_well_known name ->
+    (wk name = None \/ exists d, wk name = Some d /\ parse_and_validate d = None) ->
+    direct srv name o -> resolves wk srv name o
 | R_literal_or_port : forall o,
     ~ wants_well_known name -> direct srv name o -> resolves wk srv name o.
 
@@ -111,6 +115,12 @@ Definition direct_fn (srv : bytes -> bytes -> srv_outcome) (name : bytes) : outc
 Definition spec_fn (wk : bytes -> option bytes) (srv : bytes -> bytes -> srv_outcome)
            (name : bytes) : outcome :=
   match shape_of name with
-  | ShPlain => match wk name with Some d => direct_fn srv d | None => direct_fn srv name end
+  | ShPlain => match wk name with
+               | Some d => match shape_of d with
+                           | ShInvalid => direct_fn srv name
+                           | _ => direct_fn srv d
+                           end
+               | None => direct_fn srv name
+               end
   | _ => direct_fn srv name
   end.
